@@ -203,9 +203,16 @@ public:
      */
     template<typename T>
     T resume(suspend_point<T> &spt) {
+        //when the enqueued function is destroyed without being called (the pool is stopped),
+        //the coroutine must not be forgotten, it is resumed in the thread, which destroys the function
+        auto fin = [](void *addr) {
+            coro_queue::resume(std::coroutine_handle<>::from_address(addr));
+        };
         while (!spt.empty()) {
             std::coroutine_handle<> h = spt.pop();
-            enqueue([h]{coro_queue::resume(h);});
+            enqueue([hptr = std::unique_ptr<void, decltype(fin)>(h.address(),fin)]() mutable {
+                coro_queue::resume(std::coroutine_handle<>::from_address(hptr.release()));
+            });
         }
         if constexpr(!std::is_void_v<T>) {
             return spt;
@@ -288,7 +295,12 @@ public:
     template<typename T>
     future<T> run(async<T> &fn) {
         return [&](auto promise) {
-            resume(fn.start(promise));
+            //the enqueued function owns both the coroutine and the promise. When it is destroyed
+            //without being called (the pool is stopped), the coroutine is destroyed unstarted
+            //and the promise is dropped
+            run_detached([fn = std::move(fn), promise = std::move(promise)]() mutable {
+                fn.start(promise);
+            });
         };
     }
 
